@@ -98,7 +98,7 @@ pub fn compare_opts(prog: &Arc<Prog>, caps: &OscCaps, opts: Opts) -> Osc {
         o.too_large_reason = "shuttle_tree";
         // soundness can still be judged on what was explored
         for (out, (_, path)) in &sh.outcomes {
-            if !may.outcomes.contains(out) {
+            if !allowed(prog, &may.outcomes, out) {
                 o.unsound.push((out.clone(), path.clone()));
             }
         }
@@ -109,7 +109,7 @@ pub fn compare_opts(prog: &Arc<Prog>, caps: &OscCaps, opts: Opts) -> Osc {
     o.judged = true;
     o.shuttle_outcomes = sh.outcomes.len();
     for (out, (_, path)) in &sh.outcomes {
-        if !may.outcomes.contains(out) {
+        if !allowed(prog, &may.outcomes, out) {
             o.unsound.push((out.clone(), path.clone()));
         }
     }
@@ -155,4 +155,22 @@ pub fn describe(o: &Outcome) -> String {
         .map(|(t, l)| format!("T{t}:[{}]", l.iter().map(|(pc, v)| format!("{pc}={v}")).collect::<Vec<_>>().join(" ")))
         .collect();
     format!("{t} {}", logs.join(" "))
+}
+
+/// Soundness: the outcome is one the model allows, or it is an allowed passing outcome in which some *async* tasks
+/// were cut short. When the last thread finishes, the execution ends and the remaining futures are dropped wherever
+/// they are — also in the middle of an operation whose effect is already visible but whose result the task has not
+/// recorded yet; the model only cuts tasks between operations.
+fn allowed(prog: &Arc<Prog>, may: &BTreeSet<Outcome>, out: &Outcome) -> bool {
+    if may.contains(out) {
+        return true;
+    }
+    if out.term != crate::interp::Termination::Pass {
+        return false;
+    }
+    may.iter().any(|m| {
+        m.term == out.term
+            && m.logs.len() == out.logs.len()
+            && (0..out.logs.len()).all(|t| out.logs[t] == m.logs[t] || (prog.tasks[t].kind == crate::prog::TaskKind::Async && out.logs[t].len() < m.logs[t].len() && m.logs[t][..out.logs[t].len()] == out.logs[t][..]))
+    })
 }
